@@ -51,6 +51,8 @@ var fileKinds = []struct{ name, content string }{
 	{"snippet", "set req.http.A = \"a\";\nunset req.http.B;\n"},
 	{"invalid", "sub vcl_recv {\n  set req.http.A = ;\n}\n"},
 	{"empty", ""},
+	// text that means something to a formatting function: %-escapes, strftime patterns, a lone percent sign
+	{"percent", "sub vcl_recv {\nset req.http.A   =   \"%2F\" strftime({\"%Y-%m-%d %s %d %v %%\"}, now) \"%20\";\nset req.http.B = \"100%25 %41\";\n}\n"},
 	{"big", bigFile()},
 }
 
@@ -560,7 +562,7 @@ func init() {
 	engine.Register(engine.Spec[Case]{
 		ID:    "C16",
 		Level: "fault_enumeration",
-		Rule: "for 8 file contents (small / already formatted / no trailing newline / with comments / statement-only snippet / syntactically invalid / empty / 24 KB) the syscall history of the real `falco fmt -w FILE` is recorded under strace; then every invocation number of every file-related syscall in that history (openat, read, write, close, newfstatat, rename*, fsync, fchmod*, unlinkat, ftruncate - the file-modifying ones from the first invocation, the read-only ones over their last 12 invocations in the quick tier) is re-run once per errno of its menu (fault) and once with SIGKILL delivered on entry (crash point = every prefix of the history), plus every RLIMIT_FSIZE from 0 to the output size + 8 (stride 97 for the big file in the quick tier), a target that cannot be opened for writing and a directory in which nothing can be created; the small and the with-comments file are run through all of this a second time with the command-line target being a symbolic link to real/f.vcl (what the link names and what it pointed to are both checked); after each run the file must hold its original bytes or exactly what `falco fmt FILE` prints; non-zero exit => original; zero exit => formatted. non-trivial = every run; distinct = distinct (file kind, fault)",
+		Rule: "for 9 file contents (small / already formatted / no trailing newline / with comments / statement-only snippet / syntactically invalid / empty / full of percent signs / 24 KB) the syscall history of the real `falco fmt -w FILE` is recorded under strace; then every invocation number of every file-related syscall in that history (openat, read, write, close, newfstatat, rename*, fsync, fchmod*, unlinkat, ftruncate - the file-modifying ones from the first invocation, the read-only ones over their last 12 invocations in the quick tier) is re-run once per errno of its menu (fault) and once with SIGKILL delivered on entry (crash point = every prefix of the history), plus every RLIMIT_FSIZE from 0 to the output size + 8 (stride 97 for the big file in the quick tier), a target that cannot be opened for writing and a directory in which nothing can be created; the small and the with-comments file are run through all of this a second time with the command-line target being a symbolic link to real/f.vcl (what the link names and what it pointed to are both checked); after each run the file must hold its original bytes or exactly what `falco fmt FILE` prints; non-zero exit => original; zero exit => formatted. non-trivial = every run; distinct = distinct (file kind, fault)",
 		Gen:  gen16,
 		Key: func(c Case) string {
 			return fmt.Sprintf("%s|%s|%s|%d|%s|%d|%s|%s|%v", c.File, c.Mode, c.Syscall, c.When, c.Errno, c.Limit, c.Second, strings.Join(c.Files, ","), c.Link)
